@@ -430,6 +430,10 @@ func runCheck(prop, tier, repo string, verbose bool, only string, timeout int) i
 		if o.Canary {
 			nCan++
 			grp := o.Func + "|" + o.Mode + "|" + canaryGroup(o.Name)
+			if k := strings.Index(o.Name, "/cover#"); k >= 0 {
+				e := strings.Index(o.Name[k:], "@")
+				grp = o.Func + "|" + o.Mode + "|" + o.Name[:k+e]
+			}
 			if strings.Contains(o.Name, "/loop#") {
 				grp = o.Name
 			}
@@ -482,6 +486,9 @@ func runCheck(prop, tier, repo string, verbose bool, only string, timeout int) i
 			continue
 		}
 		viol++
+		if strings.HasPrefix(o.Res.Output, "not attempted:") {
+			continue // reported through its sibling pieces
+		}
 		rp := filepath.Join(verifDir, "replays", prop+"-"+sanitize(o.Name)+".json")
 		rep := map[string]interface{}{"property": prop, "obligation": o.Name, "kind": o.Kind, "function": o.Func, "position": o.Pos,
 			"status": o.Res.Status, "solver_output": o.Res.Output, "model": o.Res.Model, "smt_file": o.Res.File, "note": o.Note,
